@@ -689,6 +689,10 @@ func legC09Parse(c *Ctx) {
 			cs.ImplOut = []int64{1, c09ErrCode(err)}
 			cs.Class = "parse-error"
 			sawErr = true
+			// C09_parser_error_codes: since 273146b the name-scanner errors are swallowed by scanDollar
+			if c09ErrCode(err) != 20 {
+				cs.Direct = "NewReplacerData reported an error other than ErrCaptureGroupOutOfRange: " + err.Error()
+			}
 		} else {
 			out := []int64{0, int64(len(d.Strings))}
 			for _, s := range d.Strings {
